@@ -542,14 +542,14 @@ theorem C18_linearization_needs_increasing_stamps :
           cases hrest with
           | done h0 => exact absurd h0 (by decide)
           | step hp hen hacc hrest =>
-            simp [Lin.picks] at hp
+            simp [Lin.picks, Lin.afterCall] at hp
             obtain ⟨rfl, rfl, rfl⟩ := hp
             simp only [Lin.localise] at hacc
             rw [h3] at hacc
             cases hacc
         · -- then B's check: A's set had returned before it was invoked
           exact hen _ List.mem_cons_self ⟨.set [97] .serving, 1, 2, .done⟩
-            (by simp [Lin.afterCall]) (by decide)
+            (by simp) (by decide)
 
 /-! ## non-vacuity: the hypotheses above are met by concrete histories -/
 
